@@ -43,6 +43,9 @@ def need(body, what, pattern):
     if norm(pattern) not in body:
         die("%s: expected statement not found: %s" % (what, pattern))
 
+def cb(v):
+    return "true" if v else "false"
+
 def main():
     try:
         nnls = strip_comments(open(os.path.join(REPO, "src/fitter/nnls.c")).read())
@@ -96,6 +99,7 @@ def main():
             die("block3(repaired): full_step = false not directly before walk_descents")
     else:
         die("block3: unrecognised exit condition: " + exits[0])
+    b3exit = exits[0]
     # ---- walk_descents / evaluate_descent -----------------------------------------------------------
     wd = norm(function_body(chol, "walk_descents"))
     need(wd, "walk_descents", "alpha[0] = 0; alpha[1] = 1; n_alpha = 2;")
@@ -113,14 +117,103 @@ def main():
     need(cr, "calc_residual", "result += ((double*)(x->x))[i] * ((double*)(AtAx->x))[i];")
     rc = norm(function_body(chol, "double_rcmp"))
     need(rc, "double_rcmp", "if (*a < *b) return (1); else if (*a > *b) return (-1); else return (0);")
-    # ---- PJV block solvers --------------------------------------------------------------------------
+    # ---- PJV block solvers (NnlsModel2.pjv_step) ------------------------------------------------------
+    pjv = {}
     for fn in ("nnls_normal_block", "nnls_normal_block_updown"):
         bb = norm(function_body(nnls, fn))
         need(bb, fn, "iter = 3*nvar;")
+        need(bb, fn, "trials = MAX_TRIALS;")
+        need(bb, fn, "murty_steps = MAX_TRIALS;")
+        need(bb, fn, "nF = 0; nG = nvar; for (i = 0; i < nvar; i++) G[i] = i; ninf = nvar + 1;")
+        need(bb, fn, "for (i = 0; i < nvar; i++) ((double *)(y->x))[i] = -((double *)(Atb->x))[i];")
         need(bb, fn, "while (iter-- > 0) {")
-        need(bb, fn, "if (((double *)(x->x))[F[i]] < -KKT_TOL) H1[nH1++] = F[i];")
-        need(bb, fn, "if (((double *)(y->x))[G[i]] < -KKT_TOL) H2[nH2++] = G[i];")
-        need(bb, fn, "if (nH1 == 0 && nH2 == 0) break;")
+        need(bb, fn, "nH1 = nH2 = 0; for (i = 0; i < nF; i++) if (((double *)(x->x))[F[i]] < -KKT_TOL) H1[nH1++] = F[i]; "
+                     "for (i = 0; i < nG; i++) if (((double *)(y->x))[G[i]] < -KKT_TOL) H2[nH2++] = G[i];")
+        exits = re.findall(r"if\(([^{};]*)\)break;", bb)
+        if len(exits) != 1:
+            die("%s: expected exactly one conditional break, found %r" % (fn, exits))
+        if exits[0] == "nH1==0&&nH2==0":
+            both = True
+        elif exits[0] == "nH2==0":
+            both = False
+        else:
+            die("%s: unrecognised exit condition: %s" % (fn, exits[0]))
+        if len(re.findall(r"\bbreak;", bb)) != 1 or "return(x);" not in bb or len(re.findall(r"return", bb)) != 1 or \
+           len(re.findall(r"goto", bb)) != 2:
+            die("%s: control flow not as transcribed (one break, one return, two gotos)" % fn)
+        need(bb, fn, "if (ninf <= murty_steps) trials = -1;" if fn == "nnls_normal_block" else "if ((ninf <= murty_steps) ) trials = -1;")
+        conds = re.findall(r"if\((ninf>murty_steps&&[^{};]*)\)\{", bb)
+        if len(conds) != 1:
+            die("%s: progress test not found / not unique" % fn)
+        if conds[0] == "ninf>murty_steps&&(nH2+nH1<ninf||trials<-murty_steps)":
+            escape = True
+        elif conds[0] == "ninf>murty_steps&&nH2+nH1<ninf":
+            escape = False
+        else:
+            die("%s: unrecognised progress test: %s" % (fn, conds[0]))
+        need(bb, fn, "if (nH2 + nH1 <= ninf) murty_steps++; ninf = nH2 + nH1; trials = MAX_TRIALS; } else { trials--;")
+        need(bb, fn, "if (trials < 0) { if (nH2 == 0) { goto maxh1; } else if (nH1 == 0) { goto maxh2; } else if (H1[nH1 - 1] > H2[nH2 - 1]) { "
+                     "maxh1: H1[0] = H1[nH1 - 1]; nH1 = 1; nH2 = 0;")
+        need(bb, fn, "} else { maxh2: H2[0] = H2[nH2 - 1]; nH2 = 1; nH1 = 0;")
+        need(bb, fn, "double ones[2] = {1., 0}, mones[2] = {-1., 0};")
+        need(bb, fn, "for (i = 0; i < nG; i++) ((double *)(Atb_G->x))[i] = ((double *)(Atb->x))[G[i]];")
+        need(bb, fn, "AtA_FG = cholmod_l_submatrix(AtA, G, nG, F, nF, 1,1,c); cholmod_l_sdmult(AtA_FG, 0, ones, mones, x_F, Atb_G, c); "
+                     "for (i = 0; i < nG; i++) ((double *)(y->x))[G[i]] = ((double *)(Atb_G->x))[i];")
+        need(bb, fn, "for (i = 0; i < nG; i++) ((double *)(x->x))[G[i]] = 0; for (i = 0; i < nF; i++) ((double *)(y->x))[F[i]] = 0;")
+        pjv[fn] = (both, escape, exits[0], conds[0])
+    bb = norm(function_body(nnls, "nnls_normal_block"))
+    need(bb, "nnls_normal_block", "for (i = 0, j = 0; i < nH1; i++) { G[nG++] = H1[i]; while (F[j] != H1[i]) j++; "
+         "for (k = j+i; k+1 < nF; k++) F[k-i] = F[k-i+1]; } nF -= nH1;")
+    need(bb, "nnls_normal_block", "for (i = 0, j = 0; i < nH2; i++) { F[nF++] = H2[i]; while (G[j] != H2[i]) j++; "
+         "for (k = j+i; k+1 < nG; k++) G[k-i] = G[k-i+1]; } nG -= nH2; qsort(G, nG, sizeof(G[0]), intcmp); qsort(F, nF, sizeof(F[0]), intcmp);")
+    need(bb, "nnls_normal_block", "AtA_F = cholmod_l_submatrix(AtA, F, nF, F, nF, 1, 1, c);")
+    need(bb, "nnls_normal_block", "for (i = 0; i < nF; i++) ((double *)(Atb_F->x))[i] = ((double *)(Atb->x))[F[i]];")
+    need(bb, "nnls_normal_block", "x_F = cholesky_solve(AtA_F, Atb_F, c, verbose, N_RESOLVES); "
+         "for (i = 0; i < nF; i++) ((double *)(x->x))[F[i]] = ((double *)(x_F->x))[i];")
+    bb = norm(function_body(nnls, "nnls_normal_block_updown"))
+    need(bb, "nnls_normal_block_updown", "L = modify_factor(AtA, L, F, &nF, G, &nG, H1, &nH1, H2, &nH2, verbose, c);")
+    need(bb, "nnls_normal_block_updown", "if (L->n == nvar) { x = cholmod_l_solve(CHOLMOD_A, L, Atb, c); } else {")
+    need(bb, "nnls_normal_block_updown", "for (i = 0; i < nF; i++) ((double*)(Atb_F->x))[i] = ((double*)(Atb->x))[F[i]]; x_F = cholmod_l_solve(CHOLMOD_A, L, Atb_F, c);")
+    need(bb, "nnls_normal_block_updown", "for (i = 0; i < nF; i++) ((double*)(x->x))[F[i]] = ((double*)(x_F->x))[i];")
+    need(bb, "nnls_normal_block_updown", "for (i = 0; i < nF; i++) ((double *)(x_F->x))[i] = ((double *)(x->x))[F[i]];")
+    mf = norm(function_body(chol, "modify_factor_p"))
+    need(mf, "modify_factor_p", "for (i = 0, j = 0; i < nH1; i++) { G[nG++] = H1[i]; while (F[j] != H1[i]) j++; for (k = j+i; k+1 < nF; k++) F[k-i] = F[k-i+1];")
+    need(mf, "modify_factor_p", "nF -= nH1; nH1 = 0;")
+    need(mf, "modify_factor_p", "for (i = 0, j = 0; i < nH2; i++) { F[nF++] = H2[i]; while (G[j] != H2[i]) j++; for (k = j+i; k+1 < nG; k++) G[k-i] = G[k-i+1];")
+    need(mf, "modify_factor_p", "nG -= nH2; nH2 = 0; qsort(G, nG, sizeof(G[0]), intcmp); qsort(F, nF, sizeof(F[0]), intcmp);")
+    need(mf, "modify_factor_p", "*nF_ = nF; *nG_ = nG; *nH1_ = nH1; *nH2_ = nH2;")
+    mfo = norm(function_body(chol, "modify_factor"))
+    need(mfo, "modify_factor", "return(modify_factor_p(A, L, F, nF_, G, nG_, H1, nH1_, H2, nH2_, update, verbose, c));")
+    # ---- Lawson-Hanson (NnlsModel2.lh_step / lh_inner): every decision verbatim --------------------------
+    lh = norm(function_body(nnls, "nnls_lawson_hanson"))
+    need(lh, "lawson_hanson", "int last_freed = -1;")
+    need(lh, "lawson_hanson", "if (npos == 0) npos = A->ncol;")
+    need(lh, "lawson_hanson", "nP = A->ncol - npos; nZ = npos; for (i = 0; i < nZ; i++) Z[i] = i; for (i = 0; i < nP; i++) P[i] = npos + i;")
+    need(lh, "lawson_hanson", "for (n = 0; n < max_iterations || max_iterations == 0; n++) {")
+    need(lh, "lawson_hanson", "if (normaleq) { double alpha[2] = {1.0, 0.0}, beta[2] = {-1.0, 0.0}; memcpy(w->x, y->x, sizeof(double)*A->ncol); "
+         "cholmod_l_sdmult(A, 0 , beta, alpha, x, w, c); }")
+    need(lh, "lawson_hanson", "if (nZ == 0) break;")
+    need(lh, "lawson_hanson", "wmax = ((double *)(w->x))[Z[0]]; t = 0; for (i = 1; i < nZ; i++) { if (((double *)(w->x))[Z[i]] > wmax && last_freed != Z[i]) { "
+         "t = i; wmax = ((double *)(w->x))[Z[t]]; } }")
+    need(lh, "lawson_hanson", "if (wmax <= 0) break;")
+    need(lh, "lawson_hanson", "if (wmax < tolerance && n >= min_iterations) { if (nP == 0) break; assert(nP>0); wpmin = ((double *)(w->x))[P[0]]; "
+         "for (i = 1; i < nP; i++) { if (((double *)(w->x))[P[i]] < wpmin) wpmin = ((double *)(w->x))[P[i]]; } if (-wpmin < tolerance) break; }")
+    need(lh, "lawson_hanson", "last_freed = Z[t]; alpha = -1; P[nP++] = Z[t]; nZ--; for (i = t; i < nZ; i++) Z[i] = Z[i+1];")
+    need(lh, "lawson_hanson", "while (1) {")
+    need(lh, "lawson_hanson", "Ap = cholmod_l_submatrix(A, P, nP, P, nP, 1, 1, c);")
+    need(lh, "lawson_hanson", "for (i = 0; i < nP; i++) ((double *)(yp->x))[i] = ((double *)(y->x))[P[i]]; p = SuiteSparseQR_C_backslash_default(Ap, yp, c);")
+    need(lh, "lawson_hanson", "for (i = 0; i < nP; i++) if (P[i] < npos && ((double *)(p->x))[i] <= 0) break; if (i == nP) { bzero(x->x, sizeof(double)*x->nrow); "
+         "for (i = 0; i < nP; i++) ((double *)(x->x))[P[i]] = ((double *)(p->x))[i]; cholmod_l_free_dense(&p, c); break; }")
+    need(lh, "lawson_hanson", "alpha = 2; qmax = -1; for (i = 0; i < nP; i++) { if (P[i] >= npos || ((double *)(p->x))[i] > 0) continue; "
+         "qtemp = ((double *)(x->x))[P[i]]/ (((double *)(x->x))[P[i]] - ((double *)(p->x))[i]); "
+         "if (qtemp < alpha && qtemp != 0) { qmax = P[i]; alpha = qtemp; } else if (last_freed == P[i]) { alpha = 0; qmax = P[i]; break; } }")
+    need(lh, "lawson_hanson", "if (qmax < 0) { fprintf(stderr, \"%s line %d: Math has failed\\n\", __FILE__, __LINE__); exit(1); }")
+    need(lh, "lawson_hanson", "for (i = 0; i < nP; i++) ((double *)(x->x))[P[i]] += alpha* (((double *)(p->x))[i] - ((double *)(x->x))[P[i]]); "
+         "((double *)(x->x))[qmax] = 0;")
+    need(lh, "lawson_hanson", "for (i = 0; i < nP; i++) { if (P[i] >= npos || ((double *)(x->x))[P[i]] > 0) continue;")
+    need(lh, "lawson_hanson", "((double *)(x->x))[P[i]] = 0; Z[nZ++] = P[i]; nP--; for (j = i; j < nP; j++) P[j] = P[j+1]; i--; } if (alpha == 0) break; } if (alpha == 0) break; }")
+    if len(re.findall(r"\bbreak;", lh)) != 9 or len(re.findall(r"return", lh)) != 1:
+        die("lawson_hanson: number of break / return statements not as transcribed (%d breaks)" % len(re.findall(r"\bbreak;", lh)))
     txt = """(* Generated_nnls.v — written by tools/translators/nnls.py from src/fitter/nnls.c and
    src/fitter/cholesky_solve.c of the repo working tree. DO NOT EDIT. *)
 From Coq Require Import ZArith.
@@ -131,10 +224,17 @@ Definition block3_exit_requires_full_step : bool := %s. (* outer-loop exit: %s *
 Definition pjv_kkt_tol_pow10 : Z := %d.                 (* KKT_TOL = 1e-%d *)
 Definition pjv_max_trials : nat := %d.                  (* MAX_TRIALS *)
 Definition pjv_iter_factor : nat := 3.                  (* iter = 3*nvar *)
-""" % (max_iter, max_iter, tol_exp, tol_exp, "true" if repaired else "false", exits[0], kkt_exp, kkt_exp, max_trials)
+Definition pjv_block_exit_both : bool := %s.            (* nnls_normal_block: exit on %s *)
+Definition pjv_block_escape : bool := %s.               (* nnls_normal_block: progress test %s *)
+Definition pjv_updown_exit_both : bool := %s.           (* nnls_normal_block_updown: exit on %s *)
+Definition pjv_updown_escape : bool := %s.              (* nnls_normal_block_updown: progress test %s *)
+""" % ((max_iter, max_iter, tol_exp, tol_exp, "true" if repaired else "false", b3exit, kkt_exp, kkt_exp, max_trials) +
+       tuple(v for fn in ("nnls_normal_block", "nnls_normal_block_updown")
+             for v in (cb(pjv[fn][0]), pjv[fn][2], cb(pjv[fn][1]), pjv[fn][3])))
     old = open(OUT).read() if os.path.exists(OUT) else None
     if old != txt:
         open(OUT, "w").write(txt)
-    print("Generated_nnls.v: max_iter=%d tol=n*eps*1e%d exit=%s KKT_TOL=1e-%d" % (max_iter, tol_exp, exits[0], kkt_exp))
+    print("Generated_nnls.v: max_iter=%d tol=n*eps*1e%d exit=%s KKT_TOL=1e-%d block: exit=%s escape=%s updown: exit=%s escape=%s" % (
+        max_iter, tol_exp, b3exit, kkt_exp, pjv["nnls_normal_block"][2], pjv["nnls_normal_block"][1], pjv["nnls_normal_block_updown"][2], pjv["nnls_normal_block_updown"][1]))
 
 main()
